@@ -572,6 +572,59 @@ Definition carries_all (params carried : list string) : bool :=
   forallb (fun k => str_mem k carried) readout_settings &&
   forallb (fun k => str_mem k params) carried.
 
+(* ------------------------------------------------------------------------------------------ what is compared *)
+
+(* LITERAL: per class reachable from a configuration document, the constructor parameters whose loaded value the
+   correspondence reads back and compares with the document (harness/props/c12.py flatten + defaults,
+   harness/drivers/c12.py read_settings) ... *)
+Definition compared_params : list (string * list string) := [
+  ("Exposure", ["readout"; "outputs"; "result_type"; "pipeline_seed"; "working_directory"]);
+  ("Readout", ["times"; "times_from_file"; "start_time"; "non_destructive"]);
+  ("Observation", ["parameters"; "outputs"; "readout"; "mode"; "with_dask"; "result_type"; "pipeline_seed";
+                   "working_directory"]);
+  ("ParameterValues", ["key"; "values"; "boundaries"; "enabled"; "logarithmic"]);
+  ("Calibration", ["target_data_path"; "fitness_function"; "algorithm"; "parameters"; "outputs"; "readout"; "mode";
+                   "result_type"; "result_fit_range"; "result_input_arguments"; "target_fit_range"; "pygmo_seed";
+                   "pipeline_seed"; "num_islands"; "num_evolutions"; "num_best_decisions"; "topology"; "type_islands";
+                   "weights_from_file"; "weights"]);
+  ("Algorithm", ["type"; "generations"; "population_size"; "variant"; "variant_adptv"; "ftol"; "xtol"; "memory"; "cr";
+                 "eta_c"; "m"; "param_m"; "param_s"; "crossover"; "mutation"; "selection"; "nlopt_solver"; "maxtime";
+                 "maxeval"; "xtol_rel"; "xtol_abs"; "ftol_rel"; "ftol_abs"; "stopval"; "replacement"; "nlopt_selection"]);
+  ("ExposureOutputs", ["output_folder"; "custom_dir_name"; "save_data_to_file"; "save_exposure_data"]);
+  ("ObservationOutputs", ["output_folder"; "custom_dir_name"; "save_data_to_file"; "save_observation_data"]);
+  ("CalibrationOutputs", ["output_folder"; "custom_dir_name"; "save_data_to_file"; "save_calibration_data"]);
+  ("ModelFunction", ["func"; "name"; "arguments"; "enabled"]);
+  ("FitnessFunction", ["func"; "arguments"]);
+  ("DetectionPipeline", ["scene_generation"; "photon_collection"; "phasing"; "charge_generation"; "charge_collection";
+                         "charge_transfer"; "charge_measurement"; "signal_transfer"; "readout_electronics";
+                         "data_processing"]);
+  ("Geometry", ["row"; "col"; "total_thickness"; "pixel_vert_size"; "pixel_horz_size"; "pixel_scale"]);
+  ("Characteristics", ["quantum_efficiency"; "charge_to_volt_conversion"; "pre_amplification"; "full_well_capacity";
+                       "adc_bit_resolution"; "adc_voltage_range"]);
+  ("APDCharacteristics", ["roic_gain"; "quantum_efficiency"; "full_well_capacity"; "adc_bit_resolution";
+                          "adc_voltage_range"; "avalanche_gain"; "pixel_reset_voltage"; "common_voltage"]);
+  ("Environment", ["temperature"; "wavelength"]);
+  ("WavelengthHandling", ["cut_on"; "cut_off"; "resolution"])
+]%string.
+
+(* ... and the ones it does NOT compare, each for a stated reason: the custom observation mode (a parameter file) is not
+   generated; a working directory of a calibration would move its target files; a local optimizer is a pygmo object
+   that a YAML document cannot hold. *)
+Definition uncompared_params : list (string * list string) := [
+  ("Observation", ["from_file"; "column_range"]);
+  ("Calibration", ["working_directory"]);
+  ("Algorithm", ["local_optimizer"])
+]%string.
+
+Definition assoc_mem (t : list (string * list string)) (c p : string) : bool :=
+  existsb (fun e => String.eqb (fst e) c && str_mem p (snd e)) t.
+
+(* every constructor parameter of every reachable class (regenerated) is compared or explicitly excluded, and the
+   literal tables name only parameters that exist *)
+Definition params_covered (src compared uncompared : list (string * list string)) : bool :=
+  forallb (fun e => forallb (fun p => assoc_mem compared (fst e) p || assoc_mem uncompared (fst e) p) (snd e)) src &&
+  forallb (fun e => forallb (fun p => assoc_mem src (fst e) p) (snd e)) (compared ++ uncompared).
+
 (* ------------------------------------------------------------------------------------------ correspondence *)
 
 Fixpoint indices_where {A} (p : A -> bool) (l : list A) (i : Z) : list Z :=
